@@ -112,8 +112,8 @@ def gen_case(rng, index=1):
     for i in range(rng.randint(1, 3)):
         src = rng.choice(rels)
         case["dups"][f"extra/copy{i}_{os.path.basename(src)}"] = src
-    case["dups"]["extra/deep/u2.c"] = "extra/u.c"
-    case["hard"] = {"extra/deep/hl_u.c": "extra/u.c"}      # a second directory entry for a file that also has a copy
+    case["dups"]["extra/u2.c"] = "extra/u.c"
+    case["hard"] = {"extra/hl_u.c": "extra/u.c"}          # a second directory entry for a file that also has a copy
     return case
 
 
